@@ -403,8 +403,47 @@ fn main() {
                 }
             }
         }
+        "large" => {
+            let size = n.max(200);
+            let mut k = 0;
+            // a few LARGE documents first (thousands of elements / members, long strings and names)
+            let big_arr = Value::Array((0..size).map(|i| json!(i)).collect());
+            let big_obj = Value::Object((0..size / 2).map(|i| (format!("k{:04}", i), json!(i % 7))).collect());
+            let long_name: String = std::iter::repeat("é😀ab").take(300).collect();
+            let big_mix = json!({"s": "x".repeat(size + 2000), "u": "😀".repeat(1200), long_name.clone(): [1, 2, 3], "a": (0..150).map(|i| json!({"a": i, "b": [i, i + 1]})).collect::<Vec<_>>()});
+            let large: Vec<(Value, Vec<String>)> = vec![
+                (big_arr, vec![format!("$[{}]", size - 1), format!("$[-{}]", size), format!("$[{}]", size), format!("$[{}:{}]", size / 3, size / 3 + 10), format!("$[::-{}]", size / 6), format!("$[{}:]", size - 10), format!("$[?@ >= {}]", size - 5), format!("$[?@ == 100 || @ == {}]", size - 100), format!("$..[100,{}]", size - 7), "$[-1,0,-1]".to_string(), "$[?@ < 3][?@]".to_string()]),
+                (big_obj, vec![format!("$.k{:04}", size / 2 - 1), format!("$['k0000','k{:04}']", size / 2 - 1), "$[?@ == 6]".to_string(), "$..[?@ > 5]".to_string(), format!("$.k{:04}", size / 2), "$[?@ == 0 && @ != 1].x".to_string()]),
+                (big_mix, vec![format!("$[?length(@) > {}]", size + 1999), "$[?length(@) == 1200]".to_string(), format!("$['{}'][1]", long_name), format!("$..['{}'][::-1]", long_name),
+                               "$.a[?@.a > 145].b[1]".to_string(), "$.a[100].b[-1]".to_string(), "$.a..b[0]".to_string(), "$.a[?count(@.b[*]) == 2 && @.a == 149]".to_string(), "$..a[149]".to_string()]),
+            ];
+            for (doc, qs) in large.iter() {
+                let Some(sdoc) = SVal::from_value(doc) else { continue };
+                let am = AddrMap::new(doc);
+                for q in qs {
+                    let res = guarded(|| doc.query_with_path(q));
+                    let mut e = json!({"ev": "eval", "id": ["large", seed, k], "q": string_to_cps(q), "doc": sdoc, "internal": []});
+                    match res {
+                        Err(p) => { e["outcome"] = json!("panic"); e["detail"] = json!(p); }
+                        Ok(Err(_)) => { e["outcome"] = json!("err"); }
+                        Ok(Ok(rs)) => {
+                            e["outcome"] = json!("ok");
+                            let mut locs = vec![]; let mut paths = vec![]; let mut inside = true;
+                            for r in rs {
+                                let v = r.clone().val();
+                                match am.loc_of(v) { Some(l) => locs.push(l.clone()), None => inside = false }
+                                paths.push(string_to_cps(&r.path()));
+                            }
+                            e["res"] = json!(locs); e["paths"] = json!(paths); e["inside"] = json!(inside);
+                        }
+                    }
+                    println!("{}", e);
+                    k += 1;
+                }
+            }
+        }
         _ => {
-            eprintln!("usage: record strings|eval --seed S --n N");
+            eprintln!("usage: record strings|eval|large --seed S --n N");
             std::process::exit(2);
         }
     }
